@@ -193,8 +193,25 @@ func genMatcher(rt *rapid.T, label string) c13Matcher {
 //	type     same name and value, different type
 //	random   independent
 func genMatcherPair(rt *rapid.T, types []labels.MatchType) (c13Matcher, c13Matcher, string) {
-	mode := rapid.SampledFrom([]string{"shift", "shift", "resplit", "type", "random"}).Draw(rt, "mmode")
+	mode := rapid.SampledFrom([]string{"shift", "shift", "resplit", "type", "random", "longshift"}).Draw(rt, "mmode")
 	switch mode {
+	case "longshift":
+		// As "shift", but the part that moves between name and value is 254..257 or 510..513 bytes long
+		// and the type in the middle is rendered either as the operator or as a one-digit code: the two
+		// names then differ in length by about a multiple of 256, which is what breaks a key that
+		// delimits the name with a length that does not fit its field.
+		p, r := genName(rt, "p"), genValue(rt, "r")
+		fill := rapid.SampledFrom([]int{254, 255, 256, 257, 510, 511, 512, 513}).Draw(rt, "fill")
+		q := strings.Repeat("x", fill)
+		t1 := rapid.SampledFrom(types).Draw(rt, "t1")
+		t2 := rapid.SampledFrom(types).Draw(rt, "t2")
+		enc := func(t labels.MatchType) string {
+			if rapid.Bool().Draw(rt, "digit") {
+				return string(rune('0' + int(t)))
+			}
+			return t.String()
+		}
+		return c13Matcher{p + enc(t1) + q, t2, r}, c13Matcher{p, t1, q + enc(t2) + r}, mode
 	case "shift":
 		p, q, r := genName(rt, "p"), genValue(rt, "q"), genValue(rt, "r")
 		t1 := rapid.SampledFrom(types).Draw(rt, "t1")
